@@ -49,11 +49,14 @@ def run(c):
         c.mc_holds("StrictKex", cfg_text(constants=consts(True, True, inj=1, drop=2, napp=3), invariants=INVS), name="1 injection + 2 deletions, 3 app msgs", timeout=1800)
 
     # re-exchanges: the mode is latched by the initial exchange, counters restart at every NEWKEYS
-    rk = {"RepeatsMarker": "<-RM", "MaxRekeys": 2, "MaxTraffic": 3}
+    rk = {"RepeatsMarker": "<-RM", "MaxRekeys": 2, "MaxTraffic": 3, "Aead": True, "ResetSkipsAead": False}
     c.mc_holds("StrictRekey", cfg_text(constants=dict(rk, Latched=True), invariants=["StrictStays", "ResetAtEveryNewkeys", "InSync"]),
                name="re-exchanges, one end stops repeating the marker, mode latched")
     c.mc("StrictRekey", cfg_text(constants=dict(rk, Latched=False), invariants=["StrictStays", "ResetAtEveryNewkeys", "InSync"]),
          expect="StrictStays|ResetAtEveryNewkeys|InSync", name="sensitivity: strict mode recomputed from every KEXINIT")
+
+    c.mc("StrictRekey", cfg_text(constants=dict(rk, Latched=True, ResetSkipsAead=True), invariants=["ResetAtEveryNewkeys"]),
+         expect="ResetAtEveryNewkeys", name="sensitivity: counters only restarted for MAC-based cipher modes (AES-GCM negotiated)")
 
     rnd = random.Random(c.seed)
     kexes = ["curve25519-sha256@libssh.org", "diffie-hellman-group14-sha256"]
@@ -85,22 +88,36 @@ def run(c):
     if c.quick:
         # keep the quick tier bounded: all curve25519 scenarios, a seeded half of the others
         scen = [s for s in scen if s[2] == kexes[0] or rnd.random() < 0.5]
+    # cipher modes: the restart of the counters must not depend on whether the cipher is MAC-based or an AEAD
+    ciphers = ["aes128-gcm@openssh.com", "aes256-gcm@openssh.com", "aes256-cbc", "aes256-ctr"]
+    for ci in ciphers:
+        scen.append((True, True, kexes[0] + "|" + ci, None, None))
+        scen.append((True, True, kexes[0] + "|" + ci, ("c", 2, "IGNORE"), None))
+        scen.append((True, True, kexes[0] + "|" + ci, ("s", 3, "IGNORE"), ("s", 0)))
     batches, metas = {}, {}
     for (ac, as_, kex, inj, drop) in scen:
         if "group-exchange" in kex:
             continue
-        obs = sk.run_handshake(ac, as_, kex, inject=inj, drop=drop)
+        kex, _, ci = kex.partition("|")
+        obs = sk.run_handshake(ac, as_, kex, inject=inj, drop=drop, cipher=ci or None)
         recs = per_end(obs)
         for r in recs:
             metas.setdefault((ac, as_), []).append(r.pop("scenario"))
         batches.setdefault((ac, as_), []).extend(recs)
-        c.case(key=(ac, as_, kex, str(inj), str(drop)),
+        c.case(key=(ac, as_, kex, ci, str(inj), str(drop)),
                sample={"scenario": metas[(ac, as_)][-2], "client": recs[0]["obs"], "client_consumed": recs[0]["packets"][:8]}
                if inj and drop and ac and as_ else None)
     # real re-exchanges after a strict initial handshake, with a peer that advertises the marker only once
+    rekey_obs = []
     for once in ("none", "c", "s"):
         for inits in ((["c"], ["s"], ["c", "s"]) if c.quick else (["c"], ["s"], ["c", "s"], ["s", "c", "c"], ["s", "s"])):
             obs = sk.run_rekeys(once, inits, kex=kexes[0] if c.quick else rnd.choice(kexes[:6]))
+            rekey_obs.append((once, inits, obs))
+    for ci in ciphers:
+        for inits in (["c"], ["s", "c"]):
+            rekey_obs.append(("none", inits, sk.run_rekeys("none", inits, kex=kexes[0], cipher=ci)))
+    for once, inits, obs in rekey_obs:
+        if True:
             for e in ("c", "s"):
                 o = obs["ends"][e]
                 rec = {"kind": "rekeys", "end": e, "packets": [], "attacked": False,
@@ -110,7 +127,7 @@ def run(c):
                 batches.setdefault((True, True), []).append(rec)
                 metas.setdefault((True, True), []).append({"kex": obs["kex"], "inject": ["rekey", once, "+".join(inits)], "drop": [],
                                                            "adv": [True, True], "app": obs["rekeys"], "exc": ""})
-            c.case(key=("rekeys", once, tuple(inits)), sample=obs if once == "c" and len(inits) == 2 else None)
+            c.case(key=("rekeys", once, tuple(inits), obs["kex"]), sample=obs if once == "c" and len(inits) == 2 else None)
     for (ac, as_), batch in batches.items():
         res, _ = c.trace("StrictKex_Trace", batch, cfg_text(spec="TSpec", constants=consts(ac, as_), invariants=["Report"]))
         if len(res["DONE"]) != len(batch):
